@@ -245,21 +245,25 @@ class NumberState(Preparation, _mixins.WeightMixin):
                 }
                 return FockStateVector(fock_amplitude_map=fock_amplitude_map)
         elif isinstance(other, FockStateVector):
-            if self.params["occupation_numbers"] in other.params["fock_amplitude_map"]:
+            other_fock_amplitude_map = {
+                occupation_numbers: coefficient * other.params["coefficient"]
+                for occupation_numbers, coefficient in other.params[
+                    "fock_amplitude_map"
+                ].items()
+            }
+            if self.params["occupation_numbers"] in other_fock_amplitude_map:
                 new_coefficient = (
                     self.params["coefficient"]
-                    + other.params["fock_amplitude_map"][
-                        self.params["occupation_numbers"]
-                    ]
+                    + other_fock_amplitude_map[self.params["occupation_numbers"]]
                 )
                 fock_amplitude_map = {
-                    **other.params["fock_amplitude_map"],
+                    **other_fock_amplitude_map,
                     self.params["occupation_numbers"]: new_coefficient,
                 }
             else:
                 fock_amplitude_map = {
                     self.params["occupation_numbers"]: self.params["coefficient"],
-                    **other.params["fock_amplitude_map"],
+                    **other_fock_amplitude_map,
                 }
 
             return FockStateVector(fock_amplitude_map=fock_amplitude_map)
